@@ -4,6 +4,7 @@ import RockitModel.Model.Transcribe
 import Mathlib.Algebra.Order.Field.Basic
 import Mathlib.Tactic.Linarith
 import Mathlib.Tactic.FieldSimp
+import RockitModel.Generated.Reads
 /-!
 # C04 — every constraint is imposed exactly where declared, and nothing else is
 -/
@@ -147,5 +148,12 @@ end env
 example : ctrlPlaced 3 true true [-1] = [Node.at 1, Node.at 2, Node.final] := by decide
 example : Spec.ctrlIdx 3 true true [-1] = [1, 2, 3] := by decide
 example : ctrlPlaced 3 false true [1] = [Node.at 1, Node.at 2] := by decide
+
+
+/-- **a constraint that cannot be placed is rejected rather than ignored** — over the table regenerated from
+the four method classes on every run: every grid key `subject_to` accepts for a path constraint is, in every
+transcription method, either read and placed by `add_constraints` or rejected by it (raise / assert) -/
+theorem every_key_placed_or_rejected :
+    ∀ m ∈ Rockit.Generated.methodReads, ∀ k ∈ Rockit.Generated.pathGridKeys, k ∈ m.placed ∨ k ∈ m.rejected := by decide
 
 end Rockit.C04
